@@ -13,6 +13,7 @@ package data_model
 //   * a runner that feeds the case to the real sampler and records every KeepF/DiscardF call.
 
 import (
+	"math"
 	"sort"
 
 	"github.com/hrissan/tdigest"
@@ -306,6 +307,33 @@ func (c *vpsampCase) splitKeys(parent *vpsampPart, depth int) {
 	}
 }
 
+// wideLevel: some partition has >= 3 children of one level whose ids are more than 2^31 apart (a
+// three-way comparator written as an int32 subtraction is cyclic on them).
+func (p *vpsampPart) wideLevel() bool {
+	found := false
+	p.walk(func(q *vpsampPart) {
+		type span struct {
+			lo, hi int64
+			n      int
+		}
+		by := map[string]*span{}
+		for _, k := range q.Kids {
+			sp := by[k.Level]
+			if sp == nil {
+				sp = &span{lo: k.ID, hi: k.ID}
+				by[k.Level] = sp
+			}
+			sp.lo, sp.hi, sp.n = min(sp.lo, k.ID), max(sp.hi, k.ID), sp.n+1
+		}
+		for _, sp := range by {
+			if sp.n >= 3 && sp.hi-sp.lo >= 1<<31 {
+				found = true
+			}
+		}
+	})
+	return found
+}
+
 func (p *vpsampPart) walk(f func(*vpsampPart)) {
 	f(p)
 	for _, k := range p.Kids {
@@ -477,6 +505,18 @@ var (
 	vpsampFixedFrac    = []float64{0.1, 0.5, 0.9, 1.0, 1.5, 3}
 )
 
+// ids and tag values are arbitrary int32 (raw tags, hashes, builtin metrics near MinInt32): in "wide"
+// cases they are drawn from the extremes as well as from the small values
+var vpsampExtremes = []int32{math.MinInt32, math.MinInt32 + 1, -2000000000, 2000000000, math.MaxInt32 - 1, math.MaxInt32}
+
+func vpsampIDs(t *rapid.T, label string, wide bool, small []int32, n int) []int32 {
+	if !wide {
+		return small[:n]
+	}
+	pool := append(append([]int32{}, vpsampExtremes...), small...)
+	return rapid.SliceOfNDistinct(rapid.SampledFrom(pool), n, n, func(v int32) int32 { return v }).Draw(t, label)
+}
+
 // vpsampGenZero: the budget that reaches the sampled level is zero. Run(0) happens on the agent when
 // the per-metric budgets handed out by the aggregator use up the shard budget and MinSampleBudget is
 // 0; with a budget of 1..4 bytes a nested share below one byte is rounded down to 0 in some of the
@@ -491,14 +531,17 @@ func vpsampGenZero(t *rapid.T) vpsampCase {
 	nested, keys := shape == 1 || shape == 3, shape >= 2
 	c.Opt = vpsampOpt{ModeAgent: b("agent", 50), Budgets: b("budgets", 60), Namespaces: nested, Groups: nested, Keys: keys}
 	w := rapid.SampledFrom([]int64{1, 128}).Draw(t, "weight")
-	nsIDs := []int32{format.BuiltinNamespaceIDDefault, 1}
+	wide := b("wide_ids", 50)
+	nsIDs := vpsampIDs(t, "ns_ids", wide, []int32{format.BuiltinNamespaceIDDefault, 1}, 2)
 	for _, id := range nsIDs {
 		c.Namespaces = append(c.Namespaces, vpsampWeight{ID: id, W: w})
 	}
 	c.Groups = []vpsampWeight{{ID: format.BuiltinGroupIDDefault, W: w}, {ID: 10, W: w}}
 	nMetrics := rapid.IntRange(1, 3).Draw(t, "n_metrics")
+	metricIDs := vpsampIDs(t, "metric_ids", wide, []int32{100, 101, 102}, nMetrics)
+	tagVals := [2][]int32{vpsampIDs(t, "tag_values", wide, []int32{0, 1, 2, 3, -1}, 4), vpsampIDs(t, "tag_values", wide, []int32{0, 1, 2}, 2)}
 	for i := 0; i < nMetrics; i++ {
-		m := vpsampMetric{ID: int32(100 + i), NS: nsIDs[0], Group: format.BuiltinGroupIDDefault, Weight: w}
+		m := vpsampMetric{ID: metricIDs[i], NS: nsIDs[0], Group: format.BuiltinGroupIDDefault, Weight: w}
 		if nested {
 			m.NS = rapid.SampledFrom(nsIDs).Draw(t, "metric_ns")
 			if m.NS == nsIDs[0] && b("own_group", 50) {
@@ -517,8 +560,8 @@ func vpsampGenZero(t *rapid.T) vpsampCase {
 	for i := 0; i < n; i++ {
 		r := vpsampRow{M: rapid.IntRange(0, nMetrics-1).Draw(t, "row_metric"), Size: rapid.IntRange(28, 32).Draw(t, "row_size"),
 			Whale: rapid.SampledFrom(vpsampWhales).Draw(t, "whale"), Pct: b("pct", 20)}
-		r.Tags[0] = int32(rapid.IntRange(0, 3).Draw(t, "tag"))
-		r.Tags[1] = int32(rapid.IntRange(0, 1).Draw(t, "tag"))
+		r.Tags[0] = tagVals[0][rapid.IntRange(0, 3).Draw(t, "tag")]
+		r.Tags[1] = tagVals[1][rapid.IntRange(0, 1).Draw(t, "tag")]
 		c.Rows = append(c.Rows, r)
 	}
 	c.Budget = rapid.SampledFrom([]int64{0, 0, 0, 0, 1, 2, 3, 4}).Draw(t, "budget")
@@ -552,7 +595,8 @@ func vpsampGen(gc vpsampGenCfg) *rapid.Generator[vpsampCase] {
 			wM, wG = vpsampWeightsSmall, vpsampWeightsSmall
 		}
 		// namespaces and groups
-		nsIDs := []int32{format.BuiltinNamespaceIDDefault, 1, 2}[:rapid.IntRange(1, 3).Draw(t, "n_ns")]
+		wide := b("wide_ids", 50)
+		nsIDs := vpsampIDs(t, "ns_ids", wide, []int32{format.BuiltinNamespaceIDDefault, 1, 2}, rapid.IntRange(1, 3).Draw(t, "n_ns"))
 		for _, id := range nsIDs {
 			if b("ns_has_meta", 85) {
 				c.Namespaces = append(c.Namespaces, vpsampWeight{ID: id, W: rapid.SampledFrom(wG).Draw(t, "ns_w")})
@@ -561,8 +605,8 @@ func vpsampGen(gc vpsampGenCfg) *rapid.Generator[vpsampCase] {
 		type grp struct{ id, ns int32 }
 		groups := []grp{{format.BuiltinGroupIDDefault, 0}} // the default group exists in every namespace
 		nGroups := rapid.IntRange(0, 3).Draw(t, "n_groups")
-		for i := 0; i < nGroups; i++ {
-			groups = append(groups, grp{int32(10 + i), rapid.SampledFrom(nsIDs).Draw(t, "group_ns")})
+		for _, id := range vpsampIDs(t, "group_ids", wide, []int32{10, 11, 12}, nGroups) {
+			groups = append(groups, grp{id, rapid.SampledFrom(nsIDs).Draw(t, "group_ns")})
 		}
 		for _, g := range groups {
 			if b("group_has_meta", 85) {
@@ -578,6 +622,11 @@ func vpsampGen(gc vpsampGenCfg) *rapid.Generator[vpsampCase] {
 		if bigLeaves && nMetrics > 3 {
 			nMetrics = 1 + nMetrics%3
 		}
+		metricIDs := vpsampIDs(t, "metric_ids", wide, []int32{100, 101, 102, 103, 104, 105, 106, 107, 108, 109, 110, 111}, nMetrics)
+		var tagVals [3][]int32
+		for j := range tagVals {
+			tagVals[j] = vpsampIDs(t, "tag_values", wide, []int32{0, 1, 2, -1}, 3)
+		}
 		baseSize := make([]int, nMetrics)
 		flood := make([]int, nMetrics)
 		anyBudget := b("any_budget", 55)
@@ -591,7 +640,7 @@ func vpsampGen(gc vpsampGenCfg) *rapid.Generator[vpsampCase] {
 			if g.ns == 0 {
 				ns = rapid.SampledFrom(nsIDs).Draw(t, "metric_ns")
 			}
-			m := vpsampMetric{ID: int32(100 + i), NS: ns, Group: g.id, Weight: rapid.SampledFrom(wM).Draw(t, "metric_w")}
+			m := vpsampMetric{ID: metricIDs[i], NS: ns, Group: g.id, Weight: rapid.SampledFrom(wM).Draw(t, "metric_w")}
 			switch k := rapid.IntRange(0, 19).Draw(t, "meta_kind"); {
 			case k == 0:
 				m.Meta = vpsampMetaMissing
@@ -655,7 +704,7 @@ func vpsampGen(gc vpsampGenCfg) *rapid.Generator[vpsampCase] {
 				r.Whale = rapid.SampledFrom(vpsampWhales).Draw(t, "whale")
 			}
 			for j := range r.Tags {
-				r.Tags[j] = int32(rapid.IntRange(0, 2).Draw(t, "tag"))
+				r.Tags[j] = tagVals[j][rapid.IntRange(0, 2).Draw(t, "tag")]
 			}
 			r.Pct = b("pct", 20)
 			if r.Size >= 1 {
